@@ -182,33 +182,22 @@ class LocalShare:
         return os.path.join(*[self.__path, buildId[0:2], buildId[2:4], buildId[4:]])
 
     def __addPackage(self, buildId, size):
-        def update(f):
-            meta = json.load(f)
-            meta.setdefault("pkgs", {})[asHexStr(buildId)] = size
-            f.seek(0)
-            f.truncate()
-            json.dump(meta, f)
-
-            ret = 0
-            for v in meta["pkgs"].values(): ret += v
-            return ret
-
         fn = os.path.join(self.__path, "repo.json")
         try:
-            try:
-                # Usual case: update with lock
-                with OpenLocked(fn, "r+", True) as f:
-                    return update(f)
-            except FileNotFoundError:
-                # Unusual case: does not exist yet -> create atomically.
-                try:
-                    with OpenLocked(fn, "x", True) as f:
-                        json.dump({"pkgs" : {asHexStr(buildId) : size}}, f)
-                        return size
-                except FileExistsError:
-                    # Almost impossible case: lost creation race -> update
-                    with OpenLocked(fn, "r+", True) as f:
-                        return update(f)
+            # Create the file if it does not exist yet. It stays empty until we
+            # got the lock. Readers must treat an empty file as empty repo.
+            with OpenLocked(fn, "a+", True) as f:
+                f.seek(0)
+                data = f.read()
+                meta = json.loads(data) if data else {}
+                meta.setdefault("pkgs", {})[asHexStr(buildId)] = size
+                f.seek(0)
+                f.truncate()
+                json.dump(meta, f)
+
+                ret = 0
+                for v in meta["pkgs"].values(): ret += v
+                return ret
         except OSError as e:
             raise BuildError("Error updating shared repo: "+str(e))
 
@@ -334,7 +323,8 @@ class LocalShare:
             # and usage of packages.
             candidates = []
             with OpenLocked(os.path.join(self.__path, "repo.json"), "r+", True) as rf:
-                repoMeta = json.load(rf)
+                data = rf.read()
+                repoMeta = json.loads(data) if data else {}
 
                 # Scan all packages
                 for pkg, size in repoMeta.get("pkgs", {}).items():
